@@ -55,9 +55,8 @@ def _usb3_crc32():
 
 
 def _drx():
-    from props import C40 as _c40
-    t = Target("drx_full", _c40._build(1024, False, True)); t.params = dict(kind="full", lw=11, hd=True)
-    return t
+    from props import C40 as _c40                    # C40's own target object (keeps its params in step with C40's trace generator)
+    return next(t for t in _c40.targets("quick") if t.name == "drx_full")
 
 
 def targets(tier):
